@@ -379,11 +379,11 @@ Proof.
       use_at 852%N j. destruct ((c =? 44)%N || (c =? 41)%N); [simpl; lia|].
       pose proof (skip_ws_bounds (S j) ltac:(lia)) as Hs2.
       destruct ((c =? 43)%N || (c =? 62)%N || (c =? 126)%N).
-      * destruct (comb_of c); [|simpl; lia].
+      * destruct (comb_of c); [|simpl; lia]. destruct (pseudo_element r); [|exact I].
         eapply good_mono with (j := skip_ws s (S j)); [lia|].
         apply good_bind; [apply good_lt_good, IHq; lia|]. intros c' i' Hi'. apply IHsl; lia.
       * destruct (Nat.ltb_spec i j).
-        -- destruct (comb_of 32); [|simpl; lia].
+        -- destruct (comb_of 32); [|simpl; lia]. destruct (pseudo_element r); [|exact I].
            eapply good_mono with (j := j); [lia|].
            apply good_bind; [apply good_lt_good, IHq; lia|]. intros c' i' Hi'. apply IHsl; lia.
         -- simpl. lia.
